@@ -416,6 +416,17 @@ def row_strings(c: Ctx) -> None:
             c.expect_raises(W.write_nullable_legacy_string, s, what=f"{n}-byte")
         c.expect_raises(W.write_legacy_string, "€" * 10923, what="32769-byte (10923 x 3-byte chars)")
         c.expect_encoding(W.write_legacy_string, R.read_legacy_string, "€" * 10922 + "x", (32767).to_bytes(2, "big") + ("€" * 10922 + "x").encode())
+        # a Kafka string is UTF-8: a payload that is not (lone continuation byte, truncated sequence, overlong form, encoded UTF-16 surrogate,
+        # beyond U+10FFFF) behind a correct length prefix is not an encoding of any string - whatever a reader returned for it no writer
+        # could write.  It has to be refused (UnicodeDecodeError is a ValueError).
+        for bad_utf8 in (b"\x80", b"\xc3", b"a\xe2\x82", b"\xc0\x80", b"\xed\xa0\x80", b"\xed\xbf\xbf", b"\xf4\x90\x80\x80", b"ok\xffok", b"\xf8\x88\x80\x80\x80"):
+            n = len(bad_utf8)
+            for r, data in ((R.read_compact_string, refcodec.uvarint(n + 1) + bad_utf8), (R.read_compact_string_nullable, refcodec.uvarint(n + 1) + bad_utf8),
+                            (R.read_legacy_string, n.to_bytes(2, "big") + bad_utf8), (R.read_nullable_legacy_string, n.to_bytes(2, "big") + bad_utf8)):
+                exc, v, _ = c.read(r, data)
+                c.tick(r)
+                if not isinstance(exc, ValueError):
+                    c.bad(f"reader-not-utf8:{r.__name__}", f"{r.__name__}({data.hex()}) gave {exc!r}/{v!r} for a payload that is not UTF-8 (expected a ValueError)", data=data)
         # bytes are not strings: the int16 limit does not apply to them (legacy bytes carry an int32 length, compact ones a varint)
         for n in (32768, 65535, 65536, 1 << 20):
             b = rng.randbytes(n)
